@@ -1,6 +1,115 @@
 package main
 
-import "verif/harness/internal/core"
+import (
+	"bufio"
+	"encoding/json"
+	"fmt"
+	"os"
+	"path/filepath"
+	"strings"
+	"sync"
+
+	"verif/harness/internal/core"
+)
+
+// expiryPhase: the real basic adapters with time passing between the hand-out of an action and its
+// use (lfsdrv expiry); the server's log of offers and uses is validated by TLC against
+// spec/ActionExpiry.tla.  Three scenarios of about 7 s each, run side by side.
+func expiryPhase(c *core.Ctx) {
+	drv := c.BuildDriver()
+	scenarios := []string{"verify-after-slow-put", "upload-behind-slow-put", "download-behind-slow"}
+	traces := make([]string, len(scenarios))
+	var mu sync.Mutex
+	var infra error
+	core.Parallel(len(scenarios), len(scenarios), func(i int) {
+		dir := filepath.Join(c.Work, "expiry-"+scenarios[i])
+		os.MkdirAll(dir, 0o755)
+		out := filepath.Join(dir, "trace")
+		if b, err := driverCmd(c, drv, "expiry", scenarios[i], out).CombinedOutput(); err != nil {
+			mu.Lock()
+			infra = fmt.Errorf("expiry driver %s: %v\n%s", scenarios[i], err, core.Tail(string(b), 1500))
+			mu.Unlock()
+		}
+		traces[i] = out
+	})
+	if infra != nil {
+		c.Infra("%v", infra)
+	}
+	merged := filepath.Join(c.Work, "expiry-all.trace")
+	mf, _ := os.Create(merged)
+	w := bufio.NewWriter(mf)
+	type line struct {
+		scenario string
+		raw      string
+	}
+	var lines []line
+	nOffer, nUse, nLateOffers := 0, 0, 0
+	for i, t := range traces {
+		f, err := os.Open(t)
+		if err != nil {
+			c.Infra("expiry trace: %v", err)
+		}
+		sc := bufio.NewScanner(f)
+		maxT := int64(0)
+		var expiries []int64
+		for sc.Scan() {
+			var ev map[string]interface{}
+			if json.Unmarshal(sc.Bytes(), &ev) != nil {
+				continue
+			}
+			if tt, ok := ev["t"].(float64); ok && int64(tt) > maxT {
+				maxT = int64(tt)
+			}
+			switch ev["ev"] {
+			case "done":
+				if res, _ := ev["result"].(string); res != "ok" {
+					if strings.HasPrefix(res, "infra") {
+						c.Infra("expiry scenario %s: %s", scenarios[i], res)
+					}
+					c.Report(core.Violation{Assertion: "expiry-is-no-excuse-for-a-lost-transfer", Fields: map[string]string{"scenario": scenarios[i], "layer": "action-expiry"},
+						Detail: map[string]interface{}{"why": res, "trace": t}})
+				}
+				continue
+			case "offer":
+				nOffer++
+				if e, _ := ev["expires"].(float64); e > 0 {
+					expiries = append(expiries, int64(e))
+				}
+			case "use":
+				nUse++
+			}
+			w.WriteString(sc.Text() + "\n")
+			lines = append(lines, line{scenarios[i], sc.Text()})
+		}
+		f.Close()
+		for _, e := range expiries {
+			if e < maxT {
+				nLateOffers++ // an advertised expiry passed while the scenario was still running
+			}
+		}
+	}
+	w.Flush()
+	mf.Close()
+	if nLateOffers < len(scenarios) || nUse < 5 {
+		c.Infra("expiry phase is vacuous: %d offers, %d uses, %d offers whose expiry passed during their scenario", nOffer, nUse, nLateOffers)
+	}
+	ok, vr := c.ValidateTrace("ActionExpiry", "ActionExpiry.cfg", merged, false)
+	if !ok {
+		at := vr.Depth
+		if at >= 1 && at <= len(lines) {
+			c.Report(core.Violation{Assertion: "expired-action-never-used", Fields: map[string]string{"scenario": lines[at-1].scenario, "layer": "action-expiry"},
+				Detail: map[string]interface{}{"why": "the acceptor ActionExpiry has no action for this line: a request used an action after the instant its offer advertised (or one never handed out)",
+					"rejected_line": json.RawMessage(lines[at-1].raw), "trace_line": at}})
+		} else {
+			c.Infra("cannot attribute the rejection of the expiry trace at depth %d", at)
+		}
+	}
+	c.Set("expiry_scenarios", scenarios)
+	c.Set("expiry_offers", nOffer)
+	c.Set("expiry_uses", nUse)
+	c.Set("expiry_offers_that_ran_out_during_their_scenario", nLateOffers)
+	c.Assume("action expiry with the real basic adapters: three scenarios (verify after a slow PUT, upload and download waiting behind a slow transfer on one worker), 6 s action life time, times by the server's clock")
+}
 
 func init() {
 	registry["C06"] = func(c *core.Ctx, replay string) {
@@ -20,6 +129,7 @@ func init() {
 				simulate: "num=3000", simCfg: "TQ_big.cfg"}
 		}
 		c.Assume("overlap and attempt counts are observed at the fake adapter (the point of truth); Retry-After is a lower bound on real time only; the back-off delay is read from the retry.delay hook event")
+		expiryPhase(c)
 		runTQ(c, c15Owner, g)
 	}
 }
